@@ -43,6 +43,8 @@ class Arbiter:
     SIG_QUEUE = []
     SIGNALS = [getattr(signal, "SIG%s" % x)
                for x in "HUP QUIT INT TERM TTIN TTOU USR1 USR2 WINCH".split()]
+    # the signals that tell a worker to stop
+    WORKER_STOP_SIGNALS = [signal.SIGTERM, signal.SIGQUIT, signal.SIGINT]
     SIG_NAMES = dict(
         (getattr(signal, name), name[3:].lower()) for name in dir(signal)
         if name[:3] == "SIG" and name[3] != "_"
@@ -628,7 +630,15 @@ class Arbiter:
         # by fork() is entered into WORKERS: reap_workers() would then drop
         # the unknown pid and a dead, reaped process would be tracked as a
         # live worker. Hold SIGCHLD back until the worker is registered.
-        signal.pthread_sigmask(signal.SIG_BLOCK, [signal.SIGCHLD])
+        #
+        # Until a worker has installed its own handlers it runs the ones it
+        # inherits from the master, and those only queue the signal for a
+        # main loop the worker never runs: a worker told to stop while it
+        # boots would never know. Hold the stop signals back across the fork
+        # as well and let the booting worker stop when it receives one.
+        pid = None
+        signal.pthread_sigmask(signal.SIG_BLOCK,
+                               [signal.SIGCHLD] + self.WORKER_STOP_SIGNALS)
         try:
             pid = os.fork()
             if pid != 0:
@@ -637,8 +647,20 @@ class Arbiter:
         finally:
             # in the parent and in the child (which inherits the mask)
             signal.pthread_sigmask(signal.SIG_UNBLOCK, [signal.SIGCHLD])
+            if pid != 0:
+                signal.pthread_sigmask(signal.SIG_UNBLOCK,
+                                       self.WORKER_STOP_SIGNALS)
         if pid != 0:
             return pid
+
+        def stop_booting_worker(sig, frame):
+            # 'alive' ends the run loop should the exit not get through
+            worker.alive = False
+            sys.exit(0)
+
+        for s in self.WORKER_STOP_SIGNALS:
+            signal.signal(s, stop_booting_worker)
+        signal.pthread_sigmask(signal.SIG_UNBLOCK, self.WORKER_STOP_SIGNALS)
 
         # Do not inherit the temporary files of other workers
         for sibling in self.WORKERS.values():
